@@ -34,8 +34,8 @@ type c11Scenario struct {
 	PointTimes bool       `json:"use_point_times"`
 	Stream     bool       `json:"stream_form"`
 	PeriodS    int        `json:"period_s"`
-	WinS       int        `json:"window_period_s"` // the window period: 10 (tumbling), 3 (gaps, empty batches occur) or 20 (overlapping: every point is seen by two windows)
-	Through    string     `json:"batches_pass_through,omitempty"` // batch form: a node between window and aggregation that forwards batches message by message (their size is then not announced)
+	WinS       int        `json:"window_period_s"`                       // the window period: 10 (tumbling), 3 (gaps, empty batches occur) or 20 (overlapping: every point is seen by two windows)
+	Through    string     `json:"batches_pass_through,omitempty"`        // batch form: a node between window and aggregation that forwards batches message by message (their size is then not announced)
 	Sparse     bool       `json:"first_point_lacks_the_field,omitempty"` // every group starts with a point that does not carry the aggregated field
 	Groups     []c11Group `json:"groups"`
 	Script     string     `json:"script"`
